@@ -32,7 +32,7 @@ func (s *advSrc) avail() int {
 }
 func (s *advSrc) shortErr() error {
 	if s.failAfter >= 0 && s.failAfter < len(s.data) {
-		return &injErr{s.tag}
+		return injected(s.tag)
 	}
 	return io.EOF
 }
@@ -132,7 +132,7 @@ type failEndSrc struct {
 
 func (s *failEndSrc) Read(p []byte) (int, error) {
 	if len(s.data) == 0 {
-		return 0, &injErr{s.tag}
+		return 0, injected(s.tag)
 	}
 	n := copy(p, s.data[:min(len(s.data), 7)])
 	s.data = s.data[n:]
@@ -143,7 +143,7 @@ type byteFailEndSrc struct{ *failEndSrc }
 
 func (s byteFailEndSrc) ReadByte() (byte, error) {
 	if len(s.data) == 0 {
-		return 0, &injErr{s.tag}
+		return 0, injected(s.tag)
 	}
 	b := s.data[0]
 	s.failEndSrc.data = s.data[1:]
@@ -175,7 +175,7 @@ func (f *fragReader) Read(p []byte) (int, error) {
 	}
 	if f.done >= lim {
 		if lim < len(f.data) {
-			return 0, &injErr{f.tag}
+			return 0, injected(f.tag)
 		}
 		return 0, io.EOF
 	}
@@ -207,9 +207,9 @@ func mkSource(kind string, data []byte, failAfter, tag int, adv []int, frags []i
 	case "byteeof":
 		return &byteEOFSrc{data: data}
 	case "failend":
-		return &failEndSrc{data: data, tag: 9}
+		return &failEndSrc{data: data, tag: tag}
 	case "bytefailend":
-		return byteFailEndSrc{&failEndSrc{data: data, tag: 9}}
+		return byteFailEndSrc{&failEndSrc{data: data, tag: tag}}
 	case "bytes":
 		return bytes.NewReader(data)
 	case "buffer":
